@@ -7,6 +7,12 @@ for l in open('/verif/properties.jsonl'):
     p = json.loads(l)
     if p['id'] == pid:
         break
+prev = ""
+import os
+mp = f"/verif/seeded/{pid}/meta.json"
+if len(sys.argv) > 3 and sys.argv[3] == "wave2" and os.path.exists(mp):
+    b = json.load(open(mp)).get("breaks") or ""
+    prev = f"\n\nAn earlier, independently written change for this property already exists; it did the following: {b[:700]}\nYours must be DIFFERENT IN NATURE: a different code site or a different mechanism (do not produce a variation of that change).\n"
 print(f"""You are testing how robust a Go project's behaviour is against subtle regressions. The project is minekube/gate (a Minecraft Java/Bedrock reverse proxy written in Go). You have your own scratch git worktree of it at {wt} (work ONLY there; never touch /repo or /verif, and do not read anything under /verif).
 
 Here is a semantic property that the unmodified code is supposed to satisfy:
@@ -16,7 +22,7 @@ Here is a semantic property that the unmodified code is supposed to satisfy:
   Quantified over: {p['quantifier']['text']}
   Code anchors (where the behaviour lives): {json.dumps(p['anchors'].get('files', []))}
 
-Your task: produce ONE small, realistic change to the project's non-test Go source (the kind of regression a refactoring, an optimisation or a well-meant bug fix could introduce) that BREAKS this property, while (a) the project still compiles and (b) the existing test suite still passes. Prefer a change that needs something specific to manifest — a particular interleaving, a multi-step sequence of operations, an unusual or boundary input, a specific protocol version, or two cooperating sites that each look fine alone — rather than one that ordinary use would expose at once. Do not edit any existing *_test.go file and do not touch build tags or go.mod.
+{prev}Your task: produce ONE small, realistic change to the project's non-test Go source (the kind of regression a refactoring, an optimisation or a well-meant bug fix could introduce) that BREAKS this property, while (a) the project still compiles and (b) the existing test suite still passes. Prefer a change that needs something specific to manifest — a particular interleaving, a multi-step sequence of operations, an unusual or boundary input, a specific protocol version, or two cooperating sites that each look fine alone — rather than one that ordinary use would expose at once. Do not edit any existing *_test.go file and do not touch build tags or go.mod.
 
 Also produce a demonstration: a NEW Go test file (e.g. `zz_demo_test.go` in the relevant package; it may use unexported identifiers) — or a small program — that FAILS with your change applied and PASSES on the unmodified code, and that demonstrates the property violation (not merely that the code differs).
 
